@@ -15,16 +15,17 @@ import (
 
 // Frame is one activation (the function under proof, or an inlined callee).
 type Frame struct {
-	fn      *ssa.Function
-	key     string
-	vals    map[ssa.Value]Val
-	spec    *FuncSpec
-	entry   *State // state at entry of this activation (old() for its loop invariants)
-	names   map[string]Val
-	loopIn  map[int]*State
-	loopPos map[int]int
-	top     bool
-	ins     map[*ssa.BasicBlock][]edgeIn
+	fn        *ssa.Function
+	key       string
+	vals      map[ssa.Value]Val
+	spec      *FuncSpec
+	entry     *State // state at entry of this activation (old() for its loop invariants)
+	names     map[string]Val
+	loopIn    map[int]*State
+	loopPos   map[int]int
+	loopDirty map[int]string
+	top       bool
+	ins       map[*ssa.BasicBlock][]edgeIn
 }
 
 type edgeIn struct {
@@ -189,6 +190,7 @@ func (c *Ctx) execBody(fr *Frame, entry *State) (*State, Val) {
 	fr.entry = entry.clone()
 	fr.loopIn = map[int]*State{}
 	fr.loopPos = map[int]int{}
+	fr.loopDirty = map[int]string{}
 	order := rpo(fn)
 	fr.ins = map[*ssa.BasicBlock][]edgeIn{}
 	var rets []retExit
@@ -451,12 +453,13 @@ func (c *Ctx) loopHead(fr *Frame, h *ssa.BasicBlock, in *State, entryPhis map[*s
 		nn := c.declare("now.l", "Int")
 		c.assume(fmt.Sprintf("(>= %s %s)", nn, in.now), "")
 		st.now = nn
-		if c.lfMode {
-			st.dirty = in.dirty // checked at the back edge: the loop body writes no world state
+		if c.lfMode || c.loopClean[key] {
+			st.dirty = in.dirty // lockfast: checked at the back edge; otherwise: discovered on the previous pass
 		} else {
 			d := c.declare("dirty.l", "Bool")
 			st.dirty = or(in.dirty, d)
 		}
+		fr.loopDirty[ord] = st.dirty
 	}
 	for _, ins := range h.Instrs {
 		phi, ok := ins.(*ssa.Phi)
@@ -581,6 +584,11 @@ func (c *Ctx) backEdge(fr *Frame, from, h *ssa.BasicBlock, st *State) {
 				fmt.Fprintf(os.Stderr, "loopmod %s %s whole=%v keys=%v\n", key, n, mi.whole, mi.keys)
 			}
 		}
+	}
+	if !c.lfMode && !c.loopClean[key] && st.dirty == fr.loopDirty[ord] {
+		// no store of the body touched world state: remember and redo the pass with an unchanged dirty flag
+		c.loopClean[key] = true
+		c.restart = true
 	}
 	if c.restart {
 		return
